@@ -230,7 +230,7 @@ Proof.
   set (cu := match a with Some a' => a' | None => f end).
   eapply (sim_add_node s _ c i j r cu [v] b'
             (fun m => <[st_next_v s := mkNode cu [v] [] b' false]> (alter (add_child (st_next_v s)) v m)));
-    eauto; simpl.
+    eauto; try (rewrite ?recache_repos, ?recache_next_v; reflexivity); simpl.
   - intros p [<-|[]]. eauto.
   - now rewrite lookup_insert.
   - intros w Nw. rewrite lookup_insert_ne by auto. destruct (decide (w = v)) as [->|Nv].
@@ -284,7 +284,7 @@ Proof.
     destruct (inv_nodes s I j R r _ pn HR Hr Hpn) as [Hv _]. apply (inv_next_v s I) in Hv. lia. }
   eapply (sim_add_node s _ c i j r f vs ""
             (fun m => link_children (st_next_v s) vs (<[st_next_v s := mkNode f vs [] "" false]> m)));
-    eauto; simpl.
+    eauto; try (rewrite ?recache_repos, ?recache_next_v; reflexivity); simpl.
   - now apply (validate_parents_In s r ps vs).
   - rewrite link_notin; [now rewrite lookup_insert|].
     intros Hin. apply elem_of_list_In in Hin. now apply (Hcv _ Hin).
